@@ -29,11 +29,13 @@ Inductive qsrc := QDoc | QMatch (i : nat).
 Inductive qcmd :=
 | QIter (s : qsrc) (p : jpath) (vals tr : bool)     (* it = find(p, s) / find_matches(p, s) *)
 | QNext (it : nat)                                   (* next(it); a Match result is appended to the match list *)
+| QDrain (it cap extra : nat)                        (* next(it) until it raises or cap results, then extra more *)
 | QGetMatch (s : qsrc) (p : jpath) (must tr : bool)  (* a Match result is appended to the match list *)
 | QGet (s : qsrc) (p : jpath) (d : @default) (tr : bool)
 | QEq (i j : nat)                                    (* matches[i] == matches[j], and != *)
 | QRoundtrip (i : nat)                               (* get_match(matches[i].path, document) *)
-| QDescribe (i : nat).                               (* all metadata of matches[i] *)
+| QDescribe (i : nat)                                (* all metadata of matches[i] *)
+| QSnap.                                             (* deep snapshot of the document (identities, order, values) *)
 
 Record qcase := { q_doc : json; q_cmds : list qcmd }.
 
@@ -67,6 +69,31 @@ Definition explicit_path (m : jtm) : jpath :=
 
 Definition skip : otree := ON "skip" [].
 
+Definition next_iter (it : qiter) (ms : list jtm) : otree * bool * qiter * list jtm :=
+  let '(o, z', es) := j_next (i_src it) (i_path it) (i_tr it) (i_st it) in
+  let it' := {| i_src := i_src it; i_path := i_path it; i_vals := i_vals it; i_tr := i_tr it; i_st := z' |} in
+  let ms' := match o with
+             | OResult m => if i_vals it then ms else ms ++ [m]
+             | _ => ms
+             end in
+  (ON "next" [ooutcome (i_vals it) o; oevents es], match o with OResult _ => true | _ => false end, it', ms').
+
+Fixpoint extra_nexts (n : nat) (it : qiter) (ms : list jtm) : list otree * qiter * list jtm :=
+  match n with
+  | O => ([], it, ms)
+  | S n' => let '(o, _, it', ms') := next_iter it ms in
+            let '(os, it'', ms'') := extra_nexts n' it' ms' in (o :: os, it'', ms'')
+  end.
+
+Fixpoint drain_iter (cap extra : nat) (it : qiter) (ms : list jtm) : list otree * qiter * list jtm :=
+  match cap with
+  | O => extra_nexts extra it ms
+  | S cap' =>
+      let '(o, more, it', ms') := next_iter it ms in
+      if more then let '(os, it'', ms'') := drain_iter cap' extra it' ms' in (o :: os, it'', ms'')
+      else let '(os, it'', ms'') := extra_nexts extra it' ms' in (o :: os, it'', ms'')
+  end.
+
 Definition run_cmd (doc : json) (e : qenv) (c : qcmd) : otree * qenv :=
   match c with
   | QIter s p vals tr =>
@@ -89,6 +116,13 @@ Definition run_cmd (doc : json) (e : qenv) (c : qcmd) : otree * qenv :=
                     end in
           (ON "next" [ooutcome (i_vals it) o; oevents es],
            {| e_iters := set_nth_iter (e_iters e) k it'; e_matches := ms |})
+      end
+  | QDrain k cap extra =>
+      match nth_error (e_iters e) k with
+      | None => (skip, e)
+      | Some it =>
+          let '(obs, it', ms) := drain_iter cap extra it (e_matches e) in
+          (ON "drain" obs, {| e_iters := set_nth_iter (e_iters e) k it'; e_matches := ms |})
       end
   | QGetMatch s p must tr =>
       match resolve doc e s with
@@ -132,6 +166,7 @@ Definition run_cmd (doc : json) (e : qenv) (c : qcmd) : otree * qenv :=
       | None => (skip, e)
       | Some m => (mdesc m, e)
       end
+  | QSnap => (ON "snap" [snapshot doc], e)
   end.
 
 Fixpoint run_cmds (doc : json) (e : qenv) (cs : list qcmd) : list otree :=
